@@ -335,15 +335,48 @@ def nextProtoTLS : String := "h2"
 /-- `notHTTP2PanicMsg` -/
 def notHTTP2PanicMsg : String := "Non HTTP/2 connection established. Seems that target doesn't support HTTP/2."
 
+/-- What `panicOnHTTP1Client.Do` looks at in the ERROR of a failed exchange (the three conjuncts of its condition).
+All three are decided by the peer and by what crypto/tls makes of the peer's bytes. -/
+structure DoErrFacts where
+  /-- `errors.As(err, &opError)`: a `*net.OpError` is in the chain (dial / read / write failures and TLS alerts) -/
+  isOpError : Bool := false
+  /-- `opError.Op == "remote error"`: crypto/tls reports an ALERT RECEIVED from the peer -/
+  opRemoteError : Bool := false
+  /-- `strings.Contains(err.Error(), "no application protocol")`: the text of alert 120 -/
+  textNoAppProto : Bool := false
+  deriving Repr, DecidableEq, Inhabited
+
+/-- the condition under which `panicOnHTTP1Client.Do` panics on an error: the peer answered the ALPN offer `h2` with
+the alert "no application protocol" (regenerated from the source as `Gen.RespGuard.doErrPanics`) -/
+def DoErrFacts.panics (e : DoErrFacts) : Bool := e.isOpError && e.opRemoteError && e.textNoAppProto
+
+/-- How crypto/tls (client side, before a protocol version is negotiated) reports ONE alert record `level, code`
+received in answer to the ClientHello — library behaviour, observed by the harness on raw alert records of every
+level / description: `close_notify` (0) is `io.EOF`; a fatal alert (level 2) is
+`&net.OpError{Op: "remote error", Err: alert(code)}` whose text is the description's name; a warning (level 1) is
+dropped (the connection then ends in EOF); any other level is a local "unexpected message" error. -/
+def alertErr (level code : Nat) : DoErrFacts :=
+  if code = 0 then {}
+  else if level = 2 then { isOpError := true, opRemoteError := true, textNoAppProto := decide (code = 120) }
+  else if level = 1 then {}
+  else { isOpError := true }          -- local error: `&net.OpError{Op: "local error", …}`
+
 /-- What `panicOnHTTP1Client.Do` inspects besides the exchange itself. Both fields are decided by the peer. -/
 structure H2Facts where
-  /-- the wrapped `Do` failed with a `*net.OpError{Op: "remote error"}` whose text contains "no application protocol"
-  (the peer's TLS alert 120: it offers no `h2`) -/
-  alpnAlert : Bool := false
+  /-- the error of a failed exchange as the condition of `Do` sees it -/
+  err : DoErrFacts := {}
   /-- `res.TLS` of a received response: `none` = not a TLS connection, else (`NegotiatedProtocol`,
   `NegotiatedProtocolIsMutual`) -/
   tls : Option (String × Bool) := some ("h2", true)
   deriving Repr, DecidableEq, Inhabited
+
+/-- the wrapped `Do` failed with a `*net.OpError{Op: "remote error"}` whose text contains "no application protocol"
+(the peer's TLS alert 120: it offers no `h2`) -/
+def H2Facts.alpnAlert (f : H2Facts) : Bool := f.err.panics
+
+/-- the facts of an exchange that failed with the ALPN alert / with an error that is not it -/
+def H2Facts.ofAlpnAlert (b : Bool) (tls : Option (String × Bool) := some ("h2", true)) : H2Facts :=
+  { err := { isOpError := b, opRemoteError := b, textNoAppProto := b }, tls := tls }
 
 /-- `checkHTTP2(state) == nil` -/
 def checkHTTP2 : Option (String × Bool) → Bool
@@ -363,20 +396,77 @@ def stepOutcomeH2 (h2 : Bool) (f : H2Facts) (c : StepCfg) (r : Reply) : StepOutc
 
 /-- the http2/scenario gun SENDS a request to a peer that does not negotiate HTTP/2 (steps after a failed step are
 never sent) -/
-def scenarioFatal (h2 : Bool) (f : H2Facts) : List (StepCfg × Reply) → Bool
+def scenarioFatal (h2 : Bool) : List (StepCfg × H2Facts × Reply) → Bool
   | [] => false
-  | (c, r) :: rest =>
+  | (c, f, r) :: rest =>
     if !c.prepFails && (h2 && h2Panics f r) then true
     else match stepOutcome c r with
-      | .received _ .ok => scenarioFatal h2 f rest
+      | .received _ .ok => scenarioFatal h2 rest
       | _ => false
+
+/-! ## the connections an http2 client meets -/
+
+/-- what ONE connection attempt of the http2 client meets (decided by the peer) -/
+inductive ConnFate where
+  /-- the TLS handshake completes with `h2` negotiated mutually: requests are exchanged over it -/
+  | h2
+  /-- the handshake completes WITHOUT `h2` (no ALPN, another protocol): `res.TLS` of a response over it is `tls` -/
+  | noH2 (tls : Option (String × Bool))
+  /-- no connection: the handshake ends in an alert of the peer, EOF, reset, garbage, a local error, a timeout … -/
+  | fails (e : DoErrFacts)
+  deriving Repr, DecidableEq, Inhabited
+
+/-- a connection whose use can be the documented fatal condition -/
+def ConnFate.fatal : ConnFate → Bool
+  | .h2 => false
+  | .noH2 t => !checkHTTP2 t
+  | .fails e => e.panics
+
+/-- ONE request of a client over the connections the peer grants: `plan` is what the next connection attempts meet
+(`dflt` after the end of the list), `isOpen` whether the client holds an established `h2` connection. An `h2`
+connection is kept for the following requests unless keep-alives are disabled (`dka`: every request dials); a failed
+attempt costs the request that dialled; a connection without `h2` carries one exchange (the gun panics on the
+response, or the exchange fails and the connection is dropped). Result: the facts `panicOnHTTP1Client.Do` sees and
+what the target did with the request (`r` when it got it), and the state for the next request. -/
+def connNext (dka : Bool) (dflt : ConnFate) (isOpen : Bool) (plan : List ConnFate) (r : Reply) :
+    (H2Facts × Reply) × Bool × List ConnFate :=
+  if isOpen then (({}, r), true, plan)
+  else match plan.headD dflt with
+    | .h2 => (({}, r), !dka, plan.tail)
+    | .noH2 t => (({ tls := t }, r), false, plan.tail)
+    | .fails e => (({ err := e }, .noResponse .other), false, plan.tail)
+
+/-- the requests of ONE client (one instance, sequential shots): `replies` is what the target answers to the 1st,
+2nd, … request when it gets one -/
+def connShots (dka : Bool) (dflt : ConnFate) : Bool → List ConnFate → List Reply → List (H2Facts × Reply)
+  | _, _, [] => []
+  | isOpen, plan, r :: rs =>
+    (connNext dka dflt isOpen plan r).1 ::
+      connShots dka dflt (connNext dka dflt isOpen plan r).2.1 (connNext dka dflt isOpen plan r).2.2 rs
+
+/-- a scenario shot of a client over such connections: every step that SENDS a request takes the next connection
+state; steps after a failed one are never sent (their facts do not matter). Result: the steps with the facts of
+their connections, and the connection state after the shot. -/
+def scenarioOverConns (dka : Bool) (dflt : ConnFate) (h2 : Bool) :
+    Bool → List ConnFate → List (StepCfg × Reply) → List (StepCfg × H2Facts × Reply) × Bool × List ConnFate
+  | isOpen, plan, [] => ([], isOpen, plan)
+  | isOpen, plan, (c, r) :: rest =>
+    if c.prepFails then ((c, {}, r) :: rest.map (fun (c, r) => (c, {}, r)), isOpen, plan)
+    else
+      let n := connNext dka dflt isOpen plan r
+      match stepOutcomeH2 h2 n.1.1 c n.1.2 with
+      | .received _ .ok =>
+        let t := scenarioOverConns dka dflt h2 n.2.1 n.2.2 rest
+        ((c, n.1.1, n.1.2) :: t.1, t.2)
+      | _ => ((c, n.1.1, n.1.2) :: rest.map (fun (c, r) => (c, {}, r)), n.2.1, n.2.2)
 
 /-- one shot of any gun kind against a target -/
 inductive GunShot where
   /-- http / connect gun (`h2 = false`) or http2 gun (`h2 = true`, its client is `panicOnHTTP1Client`) -/
   | http (h2 : Bool) (facts : H2Facts) (cfg : AutoTagCfg) (ammoTag : String) (id : Nat) (path : String) (reply : Reply)
-  /-- http/scenario gun (`h2 = false`) or http2/scenario gun (`h2 = true`: the same `panicOnHTTP1Client`) -/
-  | scenario (h2 : Bool) (facts : H2Facts) (scn : String) (steps : List (StepCfg × Reply))
+  /-- http/scenario gun (`h2 = false`) or http2/scenario gun (`h2 = true`: the same `panicOnHTTP1Client`); every step
+  comes with the facts of the connection ITS request travels on (a scenario may meet several connections) -/
+  | scenario (h2 : Bool) (scn : String) (steps : List (StepCfg × H2Facts × Reply))
   | grpc (ammoTag : String) (callable : GrpcOutcome)
   | grpcScenario (scn : String) (calls : List (GrpcCallCfg × GrpcReply))
 
@@ -386,15 +476,15 @@ ALPN offer `h2` with the alert "no application protocol", or a response arrived 
 with mutually negotiated `h2` -/
 def GunShot.documentedFatal : GunShot → Bool
   | .http h2 facts _ _ _ _ reply => h2 && h2Panics facts reply
-  | .scenario h2 facts _ steps => scenarioFatal h2 facts steps
+  | .scenario h2 _ steps => scenarioFatal h2 steps
   | _ => false
 
 def GunShot.run : GunShot → ShotResult
   | .http h2 facts cfg tag id path reply =>
     let outcome : HttpOutcome := if h2 && h2Panics facts reply then .doPanic else reply.httpOutcome
     shootHttp cfg { ammoTag := tag, id := id, path := path, outcome := outcome }
-  | .scenario h2 facts scn steps =>
-    shootScenario scn (steps.map fun (c, r) => { name := c.name, outcome := stepOutcomeH2 h2 facts c r })
+  | .scenario h2 scn steps =>
+    shootScenario scn (steps.map fun (c, f, r) => { name := c.name, outcome := stepOutcomeH2 h2 f c r })
   | .grpc tag o => shootGrpc tag o
   | .grpcScenario scn calls =>
     shootGrpcScenario scn (calls.map fun (c, r) => { tag := c.tag, outcome := grpcStepOutcome c r })
